@@ -143,6 +143,31 @@ def rule_A2(ctx):
 META_NEW_SUFFIX = "InstructionMetadata::new"
 
 
+_META_HELPERS = {}
+
+
+def meta_helpers(F):
+    """builder functions that construct the metadata record from one of their own parameters: path -> parameter position"""
+    key = id(F)
+    if key not in _META_HELPERS:
+        out = {}
+        for g in F.fns.values():
+            if g["crate"] != "garnish_lang_compiler" or g["kind"] == "Closure" or not g.get("hir") or "::build::" not in g["path"]:
+                continue
+            pos = {}
+            for i, prm in enumerate(g.get("params", [])):
+                for b in walk(prm):
+                    if b.get("k") == "Binding":
+                        pos[b["lid"]] = i
+            for d, n in hirq.calls_in(g["hir"]):
+                if d.endswith(META_NEW_SUFFIX) and n.get("args"):
+                    a = peel(n["args"][0])
+                    if a.get("k") == "Path" and a.get("res") == "local" and a.get("lid") in pos:
+                        out[g["path"]] = pos[a["lid"]]
+        _META_HELPERS[key] = out
+    return _META_HELPERS[key]
+
+
 def _meta_calls(F, f):
     """(attributed?, where) for every InstructionMetadata::new(..) in f: attributed when the argument is Some(x) and x
     originates from a `node_index` parameter or a `parse_node_index` field."""
@@ -152,10 +177,15 @@ def _meta_calls(F, f):
     for i, p in enumerate(f.get("params", [])):
         if p.get("k") == "Binding":
             pnames[i] = p.get("name")
+    helpers = meta_helpers(F)
     for d, n in hirq.calls_in(f["hir"]):
-        if not d.endswith(META_NEW_SUFFIX):
+        if d in helpers and f.get("path") != d:
+            args_ = call_args(n)
+            a = peel(args_[helpers[d]]) if helpers[d] < len(args_) else {}
+        elif d.endswith(META_NEW_SUFFIX):
+            a = peel(n["args"][0]) if n.get("args") else {}
+        else:
             continue
-        a = peel(n["args"][0]) if n.get("args") else {}
         attributed = False
         if a.get("k") == "Call" and (callee(a) or "").endswith("::Some") and a["args"]:
             orgs = body.origins(a["args"][0])
@@ -975,9 +1005,33 @@ def rule_T12(ctx):
 #      by walking that root's list of end instructions.  The list must be walked to its end: the last entry is the control
 #      transfer (EndExpression, or the JumpTo that re-joins the code after the operator), and the only reason to skip an entry
 #      is that the very same (instruction, operand) pair is already the last instruction emitted.
+_EMIT_HELPERS = {}
+
+
+def emit_helpers(F):
+    """builder functions that hand their own parameters to push_instruction (`push_with_metadata(data, meta, instr, operand, node)`)"""
+    key = id(F)
+    if key not in _EMIT_HELPERS:
+        hs = set()
+        for g in F.fns.values():
+            if g["crate"] not in ("garnish_lang_compiler", "gfixture") or g["kind"] == "Closure" or not g.get("hir"):
+                continue
+            plids = set(b["lid"] for prm in g.get("params", []) for b in walk(prm) if b.get("k") == "Binding")
+            for m in walk(g["hir"]):
+                if m.get("k") == "MethodCall" and m.get("m") == "push_instruction" and any(x.get("k") == "Path" and x.get("lid") in plids for a in m["args"] for x in walk(a)):
+                    hs.add(g["path"])
+        _EMIT_HELPERS[key] = hs
+        _EMIT_HELPERS["current"] = hs
+    else:
+        _EMIT_HELPERS["current"] = _EMIT_HELPERS[key]
+    return _EMIT_HELPERS[key]
+
+
 def _end_loops(f):
-    """for-loops whose loop variable (or a projection of it) is an argument of push_instruction inside the loop body."""
+    """for-loops whose loop variable (or a projection of it) is an argument of push_instruction (or of a helper that hands its
+    parameters to push_instruction) inside the loop body."""
     out = []
+    helpers = _EMIT_HELPERS.get("current", set())
     for n in walk(f["hir"]):
         if n.get("k") != "Loop" or n.get("src") != "ForLoop":
             continue
@@ -995,8 +1049,10 @@ def _end_loops(f):
         lids = set(b["lid"] for b in binds)
         pushes = []
         for m in walk(arm["body"]):
-            if m.get("k") == "MethodCall" and m.get("m") == "push_instruction":
-                if any(x.get("k") == "Path" and x.get("lid") in lids for a in m["args"] for x in walk(a)):
+            is_push = m.get("k") == "MethodCall" and m.get("m") == "push_instruction"
+            is_helper = m.get("k") in ("Call", "MethodCall") and (callee(m) or "") in helpers
+            if is_push or is_helper:
+                if any(x.get("k") == "Path" and x.get("lid") in lids for a in call_args(m) for x in walk(a)):
                     pushes.append(m)
         if pushes:
             out.append((n, arm, lids, pushes))
@@ -1163,6 +1219,28 @@ def end_loop_findings(f, join_sites=()):
                 return False
             join_cmps = [n for n in walk(f["hir"]) if n.get("k") == "Binary" and n.get("op") in ("==", "!=", ">=", "<=", ">", "<")
                          and ((mentions(n["l"], "get_from_jump_table") and mentions(n["r"], "get_instruction_len")) or (mentions(n["r"], "get_from_jump_table") and mentions(n["l"], "get_instruction_len")))]
+            # the scan may live in a helper (`any_jump_entry_points_at(data, first, next)`): a call of a builder function that
+            # compares a jump-table entry with one of its parameters, handed the instruction length for that parameter
+            for c_ in walk(f["hir"]):
+                if c_.get("k") not in ("Call", "MethodCall"):
+                    continue
+                g_ = _FNS_BY_PATH.get(callee(c_) or "")
+                if g_ is None or g_["path"] == f["path"] or not g_.get("hir"):
+                    continue
+                ppos = {}
+                for i_, prm in enumerate(g_.get("params", [])):
+                    for b_ in walk(prm):
+                        if b_.get("k") == "Binding":
+                            ppos[b_["lid"]] = i_
+                hit_pos = set()
+                for n_ in walk(g_["hir"]):
+                    if n_.get("k") == "Binary" and n_.get("op") in ("==", "!="):
+                        for a_, b_ in ((n_["l"], n_["r"]), (n_["r"], n_["l"])):
+                            if any(x.get("k") == "MethodCall" and x.get("m") == "get_from_jump_table" for x in walk(a_)):
+                                hit_pos |= set(ppos[x["lid"]] for x in walk(b_) if x.get("k") == "Path" and x.get("lid") in ppos)
+                args_ = call_args(c_)
+                if any(i_ < len(args_) and mentions(args_[i_], "get_instruction_len") for i_ in hit_pos):
+                    join_cmps.append(c_)
             tied_j = False
             for loop, arm, lids, pushes in loops:
                 seen_l = set()
@@ -1220,8 +1298,15 @@ def end_loop_findings(f, join_sites=()):
     return fnd, len(loops)
 
 
+_FNS_BY_PATH = {}
+
+
 def rule_T11(ctx):
     F = ctx.F
+    emit_helpers(F)
+    _FNS_BY_PATH.clear()
+    _FNS_BY_PATH.update({g["path"]: g for g in builder_fns(F)})
+    _FNS_BY_PATH.update({g["path"]: g for g in F.fns_in("gfixture::t11::")})
     r = RuleResult("T11", "root termination: the builder walks each root's end-instruction list to its end; an entry is skipped only when the identical pair is already the last instruction")
     total = 0
     # handlers that record "the next instruction" as a jump-table entry
